@@ -429,7 +429,11 @@ func (env *Env) checkBreakerLayer(layer int, apps []*App, rs *RefState) string {
 		}
 		r := a.Children[0].Out.Res
 		failure := isFailure(s.Handle, r.Result, r.Error)
-		m.recordAt(a.Children[0].Out.T, !failure, int64(s.BDelay))
+		delay := int64(s.BDelay)
+		if s.DelayByErr && r.Error != E1 {
+			delay = 1
+		}
+		m.recordAt(a.Children[0].Out.T, !failure, delay)
 		if a.Out != nil {
 			out := a.Out.Res
 			if !sameOutcome(out, r) {
